@@ -42,10 +42,11 @@ reg('C01', [('verus', 'xoshiro')], thorough=[('verus', 'xoshiro'), ('kani', 'api
     level='proof', trusted_base=TB_COMMON + TB_RC,
     explanation='every native-width next_* of the 15 generators carries `r == <ref>_out(old state)` and `final state == <ref>_next(old state)`; from_seed carries the LE-word postcondition',
     assumptions=['stream positions follow from the one-step contracts by induction (iter32/iter64)'])
-reg('C06', [('verus', 'xoshiro')],
-    level='proof', trusted_base=TB_COMMON + ['jump polynomials x^(2^k) mod minpoly(T) are recomputed on every run by tools/jumppoly.py (exact GF(2)[x] arithmetic, not machine-checked by the verifier)'],
-    explanation='proved for all states: jump()/long_jump() == reference polynomial J_ref(T) applied to the old state (both loop invariants); assumed+recomputed: J_ref(x) == x^(2^k) mod minpoly(T), hence J_ref(T) == T^(2^k)',
-    assumptions=['p(T) == T^(2^k) whenever p == x^(2^k) mod minpoly(T) (textbook linear algebra over GF(2), not discharged by the verifier)'])
+reg('C06', [('verus', 'xoshiro'), ('static', 'jumpcheck')],
+    level='proof', trusted_base=TB_COMMON + ['verus --compile / rustc: the Verus-verified jump-polynomial checker is executed natively (ghost code erased)',
+                                             'tools/jumppoly.py only proposes the polynomials (Berlekamp-Massey + repeated squaring); they are not trusted: the verified checker confirms each one'],
+    explanation='(1) for all states jump()/long_jump() == J_ref(T) applied to the old state (both loop invariants, 24 functions); (2) J_ref(T) == T^(2^k) on every state, for the five engines and both exponents: decided by a Verus-verified executable checker (column matrix of T squared k times, each squaring proved to double the exponent; columns of J_ref(T); two linear maps that agree on the basis agree everywhere); (3) the engines are GF(2)-linear, hence jump, long_jump and stepping commute',
+    assumptions=[])
 reg('C04', [('verus', 'xorshift')], thorough=[('verus', 'xorshift'), ('kani', 'api')], fallback=[('kani', 'api')],
     level='proof', trusted_base=TB_COMMON + TB_RC + ['T4 Wrapping shim: local stand-in for core::num::Wrapping with verified operator impls (same operator semantics assumed; Kani cross-check)'],
     explanation='next_u32 carries `(x,y,z,w)\' == xor128_next(x,y,z,w)` and `r == new w`; from_seed carries the LE-word / 0x0BAD5EED postconditions',
@@ -56,15 +57,15 @@ TB_JIT = [
     'T4 shims: leading_zeros (D14), to_le_bytes; T3 i32/i64::unsigned_abs',
     'T5 relational stand-in for rand_core::RngCore; rand_core fill_bytes_via_next verified against it',
 ]
-reg('C12', [('verus', 'jitter')], fallback=[('diff', 'jitter')], level='proof', trusted_base=TB_COMMON + TB_JIT,
+reg('C12', [('verus', 'jitter')], thorough=[('verus', 'jitter'), ('kani', 'jitter_incrate'), ('diff', 'jitter')], fallback=[('diff', 'jitter')], level='proof', trusted_base=TB_COMMON + TB_JIT,
     explanation='every function of the collector carries the Jitterentropy step as postcondition with the timer readings existentially quantified (deterministic function of the readings); gen_entropy == collect_ok',
     assumptions=['number of timer readings: the postconditions quantify exactly the readings that can influence the state; the count itself is decided by Kani harnesses on the real code (thorough tier)'])
-reg('C13', [('verus', 'jitter')], fallback=[('diff', 'jitter')], level='proof', trusted_base=TB_COMMON + TB_JIT,
+reg('C13', [('verus', 'jitter')], thorough=[('verus', 'jitter'), ('diff', 'jitter')], fallback=[('diff', 'jitter')], level='proof', trusted_base=TB_COMMON + TB_JIT,
     explanation='test_timer carries `exists log. tt_post(log, r)`: Ok(r) only if no failure condition holds on the probe log, 1<=r<=128 and r*bitlen(mean)>=128; Err(e) only if cond(e) holds')
 reg('C14', [('verus', 'xoshiro'), ('verus', 'xorshift'), ('verus', 'jitter'), ('verus', 'hc128'), ('verus', 'isaac'), ('verus', 'isaac64')], fallback=[('diff', 'jitter')], level='proof', trusted_base=TB_COMMON + TB_RC + TB_JIT,
     explanation='Verus built-in obligations (overflow, index, shift, division, callee preconditions incl. panics) in every function under contract; public functions require only the type invariant',
     assumptions=['Debug/serde formatting are not claimed panic-free'])
-reg('C16', [('verus', 'jitter')], fallback=[('diff', 'jitter')], level='proof', trusted_base=TB_COMMON + TB_JIT,
+reg('C16', [('verus', 'jitter')], thorough=[('verus', 'jitter'), ('diff', 'jitter')], fallback=[('diff', 'jitter')], level='proof', trusted_base=TB_COMMON + TB_JIT,
     explanation='next_u32/next_u64/fill_bytes/clone contracts over the pending-half flag; fill_bytes via the relational contract of rand_core fill_bytes_via_next')
 reg('C15', [('verus', 'jitter')], level='proof', trusted_base=TB_COMMON + TB_JIT + ['the 64 columns of the inverse of stir\'s linear part are produced by tools/stir_inverse.py on every run; the verifier re-evaluates them (64 by(compute) evaluations), so they are not trusted'],
     explanation='lemmas over the spec functions the code is proved equal to: lfsr64 bijective in the pool (explicit inverse), injective in the time value (bit-peeling induction), rotl 7 a permutation, stir injective (affine-linearity + explicit inverse on a basis); code-level obligations jitter.lfsr.*, jitter.stir_pool.*, jitter.measure_jitter.spec tie them to the real functions',
